@@ -446,6 +446,53 @@ def walks(ctx, name, n, length):
                     % (name, length))
 
 
+def w_directed(sub, task):
+    """Every history of 1..maxlen single-action packets that starts with the
+    given one, each replayed from scratch and compared after every packet -
+    no reliance on 'equal canonical form => equal future'."""
+    name, first, maxlen = task
+    m = machine(name, sub.tier, sub.seed)
+    sink = sub.extra.setdefault('viol', [])
+    D = m.directed
+    for n in range(0, maxlen):
+        for rest in itertools.product(range(len(D)), repeat=n):
+            if len(sink) >= MAX_VIOL:
+                return
+            idx = (first,) + rest
+            ops = [D[i] for i in idx]
+            sub.count()
+            sub.note_distinct(1)
+            sub.transitions += len(ops)
+            key = lockstep(sub, m, 0, ops, sink)
+            if key is None:
+                continue
+            sub.state(h64((name, key)))
+            kinds = [o[0] for o in ops if o[1][0][0] == U0]
+            for i in range(len(kinds) - 2):
+                if kinds[i:i + 3] == ['add', 'rm', 'add']:
+                    sub.cls('playerlist: add after remove after add of the '
+                            'same UUID (directed history)')
+                    break
+
+
+def directed(ctx, name, maxlen):
+    m = machine(name, ctx.tier, ctx.seed)
+    ctx.pmap(w_directed, [(name, i, maxlen) for i in range(len(m.directed))])
+    flush_viol(ctx)
+    ctx.extra.setdefault('machines', {})[name + ' directed histories'] = {
+        'alphabet': len(m.directed), 'max_length': maxlen,
+        'histories': sum(len(m.directed) ** k for k in range(1, maxlen + 1))}
+
+
+def flush_viol(ctx):
+    """Report what workers put into the 'viol' sink, in a fixed order."""
+    viol = ctx.extra.pop('viol', [])
+    viol.sort(key=lambda v: (v[0], len(v[2]['ops']), repr(v[2])))
+    for key, what, case in viol:
+        ctx.violation(key, what, case)
+    return bool(viol)
+
+
 # ---------------------------------------------------------------------------
 # player list
 
@@ -478,13 +525,29 @@ class PlayerListMachine(Machine):
             acts['rm'].append([u])
         alpha = []
         for kind in ('add', 'gm', 'lat', 'dn', 'rm'):
+            alpha.append([kind, []])            # a packet without actions
             for a in acts[kind]:
                 alpha.append([kind, [a]])
             for a in acts[kind]:
                 for b in acts[kind]:
                     alpha.append([kind, [a, b]])
+            # three actions in one packet: the same UUID three times (every
+            # value combination), and the same UUID twice around an action
+            # for the other UUID
+            for a in acts[kind]:
+                for b in acts[kind]:
+                    for c in acts[kind]:
+                        if a[0] == c[0] and [kind, [a, b, c]] not in alpha:
+                            alpha.append([kind, [a, b, c]])
         rnd.shuffle(alpha)
         self.alphabet = alpha
+        # single-action packets for the directed short histories: everything
+        # that can happen to ONE UUID (two different adds, one update of each
+        # field kind, removal) plus add/remove of a bystander
+        self.directed = [['add', [acts['add'][0]]], ['add', [acts['add'][1]]],
+                         ['gm', [acts['gm'][1]]], ['lat', [acts['lat'][1]]],
+                         ['dn', [acts['dn'][1]]], ['rm', [acts['rm'][0]]],
+                         ['add', [acts['add'][nv]]], ['rm', [acts['rm'][1]]]]
 
     def fresh(self, i):
         P = lib().cplay.PlayerListItemPacket
@@ -538,12 +601,29 @@ class PlayerListMachine(Machine):
                         else 'playerlist: remove of an unknown player (no-op)')
                 ref.pop(u, None)
             else:
+                field = {'gm': 'gamemode', 'lat': 'ping',
+                         'dn': 'display_name'}[kind]
                 ctx.cls('playerlist: update of a known player' if u in ref
                         else 'playerlist: update of an unknown player (no-op)')
+                ctx.cls('playerlist: update of %s of %s player' % (
+                    field, 'a known' if u in ref else 'an unknown'))
                 if u in ref:
-                    field = {'gm': 'gamemode', 'lat': 'ping',
-                             'dn': 'display_name'}[kind]
                     ref[u][field] = a[1]
+        if ctx is QUIET:
+            return
+        if not acts:
+            ctx.cls('playerlist: packet without actions (no-op)')
+        if len(acts) > 2:
+            ctx.cls('playerlist: three actions in one packet')
+        uu = [a[0] for a in acts]
+        if len(set(uu)) < len(uu):
+            ctx.cls('playerlist: same UUID several times in one packet')
+            if len(uu) == 3 and uu[0] == uu[2] != uu[1]:
+                ctx.cls('playerlist: same UUID twice in one packet around '
+                        'another UUID')
+            if len(set(map(repr, acts))) == len(acts):
+                ctx.cls('playerlist: same UUID several times in one packet '
+                        'with different values')
 
     @staticmethod
     def view(real):
@@ -616,13 +696,134 @@ def fitting_rects(W, H, sizes=(1, 2)):
             for ox in range(W - w + 1) for oz in range(H - h + 1)]
 
 
+def inside(w, n, ox, oz, W, H):
+    """Do all n pixels of an update of width w at (ox, oz) lie inside a WxH
+    map?  (columns touched: min(w, n); rows touched: ceil(n / w))"""
+    return w >= 1 and n >= 1 and ox >= 0 and oz >= 0 and \
+        ox + min(w, n) - 1 < W and oz + (n - 1) // w < H
+
+
+def overlap(a, b):
+    """Do two updates [w, n, ox, oz] write a common cell?"""
+    ca = set((a[2] + i % a[0], a[3] + i // a[0]) for i in range(a[1]))
+    return any((b[2] + i % b[0], b[3] + i // b[0]) in ca
+               for i in range(b[1]))
+
+
+def update_classes(w, h, n, ox, oz, W, H):
+    """Vacuity-guard labels of one pixel-carrying update on a WxH map."""
+    out = []
+    big = ' of a 128x128 map' if (W, H) == (128, 128) else ''
+    rows = (n - 1) // w + 1
+    if n == w * h:
+        out.append('maps: patch %dx%d' % (w, h) if w * h <= 4
+                   else 'maps: rectangular patch larger than 2x2')
+    if h != rows:
+        out.append('maps: declared height differs from the rows carried')
+    if n % w:
+        out.append('maps: ragged map update')
+        if n < w:
+            out.append('maps: ragged map update shorter than one row')
+        elif n // w == 1:
+            out.append('maps: ragged map update of one-and-a-bit rows')
+        if n > w and n % w == 1:
+            out.append('maps: ragged map update of k rows plus 1 pixel')
+        if n > w and n % w == w - 1:
+            out.append('maps: ragged map update of k rows minus 1 pixel')
+        if big:
+            out.append('maps: ragged map update' + big)
+    if w == 1:
+        out.append('maps: update of width 1')
+    if ox + min(w, n) == W:
+        out.append('maps: update touching the last column' + big)
+    if oz + rows == H:
+        out.append('maps: update touching the last row' + big)
+    if oz + rows == H and ox + (n - 1) % w == W - 1:
+        out.append('maps: update ending exactly at the bottom-right border'
+                   + big)
+    return out
+
+
+def px_values(k, n):
+    """Pixel values of the k-th update of an alphabet: never 0 (the initial
+    value), different for neighbouring pixels and for different updates."""
+    return [1 + (7 * k + 29 * i) % 255 for i in range(n)]
+
+
+def shaped_op(k, mid, w, n, ox, oz, h=None):
+    pat = map_patterns()[k % 2]
+    return [mid, pat['scale'], pat['icons'], w, -(-n // w) if h is None else h,
+            ox, oz, px_values(k, n), pat['tracking'], pat['locked']]
+
+
+def all_updates(W, H, max_w):
+    """EVERY update (w, n, ox, oz), 1 <= w <= max_w, whose pixels all lie
+    inside a WxH map: rectangular and ragged, every width, every offset."""
+    return [(w, n, ox, oz) for w in range(1, max_w + 1)
+            for n in range(1, w * H + 1)
+            for ox in range(W) for oz in range(H)
+            if inside(w, n, ox, oz, W, H)]
+
+
+def shaped_ops(mid, W, H, max_w, heights='rows'):
+    """The complete in-bounds alphabet of a small map.  heights='rows':
+    declared height = rows carried; 'other': every other declared height out
+    of {0, n div w, rows + 1} (one operation each)."""
+    out = []
+    for (w, n, ox, oz) in all_updates(W, H, max_w):
+        rows = -(-n // w)
+        hs = [rows] if heights == 'rows' else \
+            [h for h in sorted({0, n // w, rows + 1}) if h != rows]
+        for h in hs:
+            out.append(shaped_op(len(out), mid, w, n, ox, oz, h))
+    pat = map_patterns()[1]
+    out.append([mid, pat['scale'], pat['icons'], 0, 0, None, None, None,
+                pat['tracking'], pat['locked']])
+    return out
+
+
+def border_updates(widths):
+    """Updates (w, n, ox, oz) of a 128x128 map around its borders: for every
+    width, the pixel counts {1, w-1, w, w+1, 2w-1, 2w, 2w+1, 3w+1} (shorter
+    than a row, whole rows, one-and-a-bit rows, k rows minus/plus 1) at the
+    anchors: top-left corner, ending exactly at the last column, at the last
+    row, at both, one short of both, and an interior point - every
+    combination that stays inside the map."""
+    out = []
+    for w in widths:
+        for n in sorted({1, w - 1, w, w + 1, 2 * w - 1, 2 * w, 2 * w + 1,
+                         3 * w + 1}):
+            if n < 1:
+                continue
+            cols, rows = min(w, n), -(-n // w)
+            for (ox, oz) in ((0, 0), (128 - cols, 0), (0, 128 - rows),
+                             (128 - cols, 128 - rows),
+                             (127 - cols, 127 - rows), (60, 70)):
+                t = (w, n, ox, oz)
+                if inside(w, n, ox, oz, 128, 128) and t not in out:
+                    out.append(t)
+    return out
+
+
+FULL_MAP_UPDATES = [
+    (128, 128 * 128, 0, 0),         # the whole map, ends at the border
+    (128, 128 * 128 - 1, 0, 0),     # k rows minus 1
+    (128, 128 * 127 + 1, 0, 0),     # k rows plus 1, touches the last row
+    (128, 128, 0, 127),             # exactly the last row
+    (128, 127, 1, 127),             # short row ending at the last pixel
+    (128, 129, 0, 126),             # one-and-a-bit rows into the last row
+    (1, 128, 127, 0),               # exactly the last column
+]
+
+
 class MapMachine(Machine):
     """mode 'set': apply_to_map_set on a MapSet; mode 'map': apply_to_map."""
     snapshots = True
 
-    def __init__(self, name, seed, mode, dims, ids, rects, seeded=(0, 1)):
+    def __init__(self, name, seed, mode, dims, ids, rects, seeded=(0, 1),
+                 ops=None):
         self.name, self.mode, self.dims, self.seeded = name, mode, dims, seeded
-        self.alphabet = map_ops(ids, rects)
+        self.alphabet = map_ops(ids, rects) if ops is None else ops
         random.Random('map/%s/%d' % (name, seed)).shuffle(self.alphabet)
 
     @staticmethod
@@ -670,12 +871,24 @@ class MapMachine(Machine):
         r['tracking'], r['locked'] = tracking, locked
         if px is None:
             ctx.cls('maps: packet without pixels')
-        else:
-            ctx.cls('maps: patch %dx%d' % (w, h))
-            for row in range(h):            # pixel i = row*w + col lands at
-                for col in range(w):        # (ox + col, oz + row)
-                    r['pixels'][(oz + row) * r['width'] + ox + col] = \
-                        px[row * w + col]
+            return
+        W, H, n = r['width'], r['height'], len(px)
+        if not inside(w, n, ox, oz, W, H):
+            raise ToolError('map alphabet: %s leaves the %dx%d map'
+                            % (self.label(op), W, H))
+        # the prescribed placement, for EVERY pixel of the array: pixel i
+        # lands at (ox + i mod w, oz + i div w); the declared height h takes
+        # no part in it
+        for i in range(n):
+            r['pixels'][(oz + i // w) * W + ox + i % w] = px[i]
+        last, r['last'] = r.get('last'), [w, n, ox, oz]
+        if ctx is QUIET:
+            return
+        for c in update_classes(w, h, n, ox, oz, W, H):
+            ctx.cls(c)
+        if last is not None and overlap(last, r['last']):
+            ctx.cls('maps: update overlapping the previous update of that '
+                    'map')
 
     @staticmethod
     def view(mp):
@@ -732,14 +945,27 @@ class MapMachine(Machine):
         return None
 
     def opkind(self, op):
-        return 'a packet without pixels' if op[7] is None else \
-            'a %dx%d patch' % (op[3], op[4])
+        if op[7] is None:
+            return 'a packet without pixels'
+        w, h, n = op[3], op[4], len(op[7])
+        if n == w * h:
+            return 'a %dx%d patch' % (w, h)
+        if n < w:
+            return 'a ragged update shorter than one row'
+        if n % w:
+            return 'a ragged update with a partial last row'
+        return 'an update declaring another height than it carries'
 
     def label(self, op):
         if op[7] is None:
             return 'map%d:nopixels(scale=%d)' % (op[0], op[1])
-        return 'map%d:%dx%d@(%d,%d)px=%s' % (
-            op[0], op[3], op[4], op[5], op[6], bytes(op[7]).hex())
+        n = len(op[7])
+        shape = '%dx%d' % (op[3], op[4]) if n == op[3] * op[4] else \
+            'width=%d,height=%d,%dpx' % (op[3], op[4], n)
+        return 'map%d:%s@(%d,%d)px=%s' % (
+            op[0], shape, op[5], op[6],
+            bytes(op[7]).hex() if n <= 16 else
+            bytes(op[7][:8]).hex() + '..(%d bytes)' % n)
 
 
 # ---------------------------------------------------------------------------
@@ -1205,6 +1431,28 @@ def build_machine(name, tier, seed):
     if name == 'map-direct-5x3':
         return MapMachine(name, seed, 'map', (5, 3), (0, 1),
                           fitting_rects(5, 3))
+    if name == 'map-shaped-4x3':
+        return MapMachine(name, seed, 'map', (4, 3), None, None,
+                          ops=shaped_ops(0, 4, 3, 5))
+    if name == 'map-shaped-5x4':
+        return MapMachine(name, seed, 'map', (5, 4), None, None,
+                          ops=shaped_ops(0, 5, 4, 6))
+    if name == 'map-shaped-heights-4x3':
+        return MapMachine(name, seed, 'map', (4, 3), None, None,
+                          ops=shaped_ops(0, 4, 3, 5, 'other'))
+    if name == 'mapset-border-128':
+        extra = random.Random('mapw/%d' % seed).randrange(4, 127)
+        widths = [1, 3, 128, 255, extra]
+        if tier == 'thorough':
+            widths += [2, 5, 127]
+        ops = [shaped_op(k, 7, *t)
+               for k, t in enumerate(border_updates(widths))]
+        return MapMachine(name, seed, 'set', (4, 4), None, None, seeded=(),
+                          ops=ops)
+    if name == 'mapset-full-128':
+        ops = [shaped_op(k, 3, *t) for k, t in enumerate(FULL_MAP_UPDATES)]
+        return MapMachine(name, seed, 'set', (4, 4), None, None, seeded=(),
+                          ops=ops)
     am = alias_machines(seed)
     if name in am:
         return am[name]()
@@ -1215,7 +1463,12 @@ def build_machine(name, tier, seed):
 # position and look
 
 P_VALUES = [0, 90, -90, 359.5, 720.25, -0.5]
-P_PRIORS = ([0, 0, 0, 0, 0], [10.5, 64, -7.25, 350.0, 275.5])
+P_PRIORS = ([0, 0, 0, 0, 0], [10.5, 64, -7.25, 350.0, 275.5],
+            [-3.5, 255.875, 1000.125, 0.125, 359.875])
+# values an angle is made to END ON (before wrapping): the multiples of 360
+# from -720 to 1080 and their neighbours one eighth below and above
+P_LANDINGS = [k * 360 + d for k in (-2, -1, 0, 1, 2, 3)
+              for d in (-0.125, 0, 0.125)]
 P_BASE = [1.25, -2.5, 3, 45.0, 30.0]
 AXES = ('x', 'y', 'z', 'yaw', 'pitch')
 
@@ -1292,10 +1545,40 @@ def position_tuples(tier, seed):
     return out
 
 
+def landing_tuples(flags, prior):
+    """Packets that make yaw (pitch) end exactly on each of P_LANDINGS before
+    wrapping - as an absolute value or, when the axis is relative in `flags`,
+    as the delta from `prior` - alone and both angles together."""
+    out = []
+    delta = [prior[i] if flags >> i & 1 else 0 for i in range(5)]
+    for t in P_LANDINGS:
+        for axes in ((3,), (4,), (3, 4)):
+            v = list(P_BASE)
+            for ax in axes:
+                v[ax] = t - delta[ax]
+            out.append(v)
+    return out
+
+
 def w_position(sub, flags):
     n = 0
     for pi, prior in enumerate(P_PRIORS):
-        for vals in position_tuples(sub.tier, sub.seed):
+        if any(prior):
+            sub.cls('position: flag set applied to a non-zero starting state')
+        for vals in landing_tuples(flags, prior):
+            for ax in (3, 4):
+                end = eighths(vals[ax]) + (eighths(prior[ax])
+                                           if flags >> ax & 1 else 0)
+                kind = 'relative' if flags >> ax & 1 else 'absolute'
+                if end % 2880 == 0:
+                    sub.cls('position: %s angle lands exactly on %d'
+                            % (kind, end // 8))
+                elif end % 2880 in (1, 2879):
+                    sub.cls('position: %s angle lands 1/8 %s a multiple of '
+                            '360' % (kind, 'above' if end % 2880 == 1
+                                     else 'below'))
+        for vals in landing_tuples(flags, prior) + \
+                position_tuples(sub.tier, sub.seed):
             n += 1
             got = position_case(sub, flags, prior, vals)
             if got is None:
@@ -1748,14 +2031,115 @@ def w_records(sub, idx):
                             '(1 == 1.0) hashing equally')
             if judged:
                 want = fields_equal(a, b)
+                if not want and sum(1 for x, y in zip(a, b)
+                                    if not x == y) == 1:
+                    sub.cls('records: pair differing in exactly one field')
+                elif want and i != j:
+                    sub.cls('records: equal pair of two distinct objects')
                 if bool(eq) != want or bool(ne) != (not want):
                     sub.violation(
                         'records %s: == is not field-wise' % ident,
                         '%s: records with fields %r and %r: == gives %r and '
                         '!= gives %r, field-wise comparison gives %r'
                         % (ident, a, b, eq, ne, want), case(a, b))
+    # a second, separately built record with the very same fields
+    for i in range(nfull):
+        n += 1
+        try:
+            twin = make_record(cls, slots, full[i])
+            eq, ne = objs[i] == twin, objs[i] != twin
+            th = ('h', hash(twin)) if hashes[i][0] == 'h' else hashes[i]
+        except Exception as e:
+            sub.violation('records %s: == raises' % ident,
+                          '%s: comparing two records built from the same '
+                          'fields %r raised %s: %s'
+                          % (ident, full[i], type(e).__name__, e),
+                          case(full[i], full[i]))
+            continue
+        sub.cls('records: two separately built records with the same fields')
+        if not eq or ne:
+            sub.violation(
+                'records %s: == is not field-wise' % ident,
+                '%s: two records built separately from the same fields %r: '
+                '== gives %r and != gives %r' % (ident, full[i], eq, ne),
+                case(full[i], full[i]))
+        elif th != hashes[i]:
+            sub.violation(
+                'records %s: equal records hash differently' % ident,
+                '%s: two records built separately from the same fields %r '
+                'compare equal but hash to %d and %d'
+                % (ident, full[i], hashes[i][1], th[1]),
+                case(full[i], full[i]))
+    n += records_mutated(sub, cls, ident, slots, case)
     sub.count(n)
     sub.note_distinct(n)
+
+
+def records_mutated(sub, cls, ident, slots, case):
+    """Records are mutable: after ONE field of a record that has already been
+    hashed and compared is assigned, the record must compare (and hash) like
+    a fresh record with the new fields, and differ from a fresh record with
+    the old ones.  Every slot x every value of the class's value alphabet,
+    from two starting records."""
+    k = len(slots)
+    vals = list(REC_VALUES_T if sub.tier == 'thorough' else REC_VALUES_Q)
+    vals.append(random.Random('rec/%d' % sub.seed).randrange(2, 1 << 40))
+    n = 0
+    for start in ([100 + i for i in range(k)], [0] * k):
+        for i in range(k):
+            for v in vals:
+                if v == start[i]:
+                    continue
+                after = list(start)
+                after[i] = v
+                n += 1
+                try:
+                    o = make_record(cls, slots, start)
+                    old = make_record(cls, slots, start)
+                    new = make_record(cls, slots, after)
+                    try:
+                        hash(o)
+                    except TypeError:
+                        pass
+                    if not o == old:
+                        continue        # reported by the pair enumeration
+                    setattr(o, slots[i], v)
+                    eq_new, eq_old = o == new, o == old
+                    ne_new = o != new
+                    try:
+                        hashes = (hash(o), hash(new))
+                    except TypeError:
+                        hashes = None
+                except Exception as e:
+                    sub.violation(
+                        'records %s: assigning a field raises' % ident,
+                        '%s: building %r, assigning %s=%r and comparing '
+                        'raised %s: %s' % (ident, start, slots[i], v,
+                                           type(e).__name__, e),
+                        case(start, after))
+                    continue
+                sub.cls('records: field assigned after the record was hashed '
+                        'and compared')
+                if not eq_new or ne_new or eq_old:
+                    sub.violation(
+                        'records %s: == is not field-wise after a field is '
+                        'assigned' % ident,
+                        '%s: a record built with fields %r, hashed, then '
+                        'assigned %s=%r: == fresh record %r gives %r (!= '
+                        'gives %r), == fresh record with the old fields '
+                        'gives %r' % (ident, start, slots[i], v, after,
+                                      eq_new, ne_new, eq_old),
+                        case(start, after))
+                elif hashes and hashes[0] != hashes[1]:
+                    sub.violation(
+                        'records %s: equal records hash differently after a '
+                        'field is assigned' % ident,
+                        '%s: a record built with fields %r, hashed, then '
+                        'assigned %s=%r compares equal to a fresh record %r '
+                        'but they hash to %d and %d'
+                        % (ident, start, slots[i], v, after, hashes[0],
+                           hashes[1]), case(start, after))
+    return n
 
 
 def records_cross(ctx):
@@ -1802,9 +2186,9 @@ def records_cross(ctx):
 # ---------------------------------------------------------------------------
 # vectors
 
-VEC_Q = [0, 1, -2, 2.5]
-VEC_T = [0, 1, -2, 2.5, -0.5, 2 ** 31, 1e300]
-SCALARS = [0, 1, -1, 2, 0.5, -3, 7, 2 ** 40]
+VEC_Q = [0, 1, -2, 2.5, 0.0]
+VEC_T = [0, 1, -2, 2.5, 0.0, -0.5, 2 ** 31, 1e300]
+SCALARS = [0, 1, -1, 2, 0.5, -3, 7, 2 ** 40, 1.0, -1.0, 0.0, -2.5, True]
 
 
 _VT = []
@@ -1899,6 +2283,9 @@ def w_vectors(sub, task):
                 vector_case(sub, op, li, ri, a, s)
                 n += 1
         sub.cls('vectors: scalar %s' % op)
+        for t in sorted(set(type(x).__name__ for x in scal)):
+            sub.cls('vectors: %s with %s %s scalar' % (
+                op, 'an' if t[0] in 'aeiou' else 'a', t))
     sub.count(n)
     sub.note_distinct(n)
 
@@ -2133,6 +2520,7 @@ def run(ctx):
     # trackers
     explore(ctx, 'playerlist', parallel=True, chunk=4)
     walks(ctx, 'playerlist', 12 if ctx.thorough else 4, 200)
+    directed(ctx, 'playerlist', 5 if ctx.thorough else 4)
     t0 = _phase(t0, 'playerlist')
     explore(ctx, 'mapset', max_depth=2, parallel=True, chunk=2)
     explore(ctx, 'mapset-empty', max_depth=2, parallel=True, chunk=1)
@@ -2143,6 +2531,16 @@ def run(ctx):
     else:
         explore(ctx, 'map-direct-4x4', max_depth=1, parallel=False, chunk=1)
     walks(ctx, 'mapset', 6 if ctx.thorough else 2, 200)
+    # every in-bounds update shape (ragged ones included), all ordered pairs
+    explore(ctx, 'map-shaped-4x3', max_depth=2, parallel=True, chunk=2)
+    explore(ctx, 'map-shaped-heights-4x3', max_depth=1, parallel=False,
+            chunk=1)
+    explore(ctx, 'mapset-border-128', max_depth=2, parallel=True, chunk=1)
+    explore(ctx, 'mapset-full-128', max_depth=2, parallel=True, chunk=1)
+    if ctx.thorough:
+        explore(ctx, 'map-shaped-5x4', max_depth=2, parallel=True, chunk=2)
+    walks(ctx, 'mapset-border-128', 4 if ctx.thorough else 2, 200)
+    walks(ctx, 'map-shaped-4x3', 4 if ctx.thorough else 2, 200)
     t0 = _phase(t0, 'maps')
 
     # position
@@ -2180,7 +2578,47 @@ def run(ctx):
             'maps: packet for an unknown id creates a 128x128 map',
             'maps: packet without pixels', 'maps: patch 2x1',
             'maps: patch 1x2', 'position: an angle had to be wrapped',
-            'records: equal pair', 'alias: assignment through an alias']
+            'records: equal pair', 'alias: assignment through an alias',
+            # round 2
+            'maps: ragged map update',
+            'maps: ragged map update shorter than one row',
+            'maps: ragged map update of one-and-a-bit rows',
+            'maps: ragged map update of k rows plus 1 pixel',
+            'maps: ragged map update of k rows minus 1 pixel',
+            'maps: ragged map update of a 128x128 map',
+            'maps: update of width 1',
+            'maps: update touching the last column',
+            'maps: update touching the last row',
+            'maps: update touching the last column of a 128x128 map',
+            'maps: update touching the last row of a 128x128 map',
+            'maps: update ending exactly at the bottom-right border',
+            'maps: update ending exactly at the bottom-right border of a '
+            '128x128 map',
+            'maps: update overlapping the previous update of that map',
+            'maps: declared height differs from the rows carried',
+            'playerlist: packet without actions (no-op)',
+            'playerlist: three actions in one packet',
+            'playerlist: same UUID several times in one packet with '
+            'different values',
+            'playerlist: same UUID twice in one packet around another UUID',
+            'playerlist: add after remove after add of the same UUID '
+            '(directed history)',
+            'position: flag set applied to a non-zero starting state',
+            'position: relative angle lands 1/8 below a multiple of 360',
+            'position: absolute angle lands 1/8 above a multiple of 360',
+            'records: pair differing in exactly one field',
+            'records: equal pair of two distinct objects',
+            'records: two separately built records with the same fields',
+            'records: field assigned after the record was hashed and '
+            'compared',
+            'vectors: mul with a float scalar',
+            'vectors: rmul with a float scalar']
+    need += ['playerlist: update of %s of %s player' % (f, k)
+             for f in ('gamemode', 'ping', 'display_name')
+             for k in ('a known', 'an unknown')]
+    need += ['position: %s angle lands exactly on %d' % (k, a)
+             for k in ('absolute', 'relative')
+             for a in (0, 360, -360, 720)]
     if not ctx.violations:
         for c in need:
             if not ctx.classes.get(c):
